@@ -63,7 +63,7 @@ def contracts():
                'r == round_div(quot * (divisor as int) + rem as int, divisor as int, eff_mode(mode))')],
         entry='broadcast use lemma_shl1; lemma_floor_form(quot as int, rem as int, divisor as int);')
     d['rounding::i128_div_rounded'] = C(
-        pre=['divisor != 0', 'divident > i128::MIN', 'divisor > i128::MIN'],
+        pre=['divisor != 0', 'divisor < 0 ==> (divident > i128::MIN && divisor > i128::MIN)'],
         post=[('i128_div_rounded.round_div',
                'r == round_div(if divisor < 0 { -(divident as int) } else { divident as int }, abs_int(divisor as int), eff_mode(mode))')],
         entry=('lemma_floor_div_props(if divisor < 0 { -(divident as int) } else { divident as int }, abs_int(divisor as int));'))
